@@ -589,11 +589,23 @@ def apply_repl(repl: str, matched: str) -> str:
 # helper summaries: contexts a string parameter ends up in
 # ----------------------------------------------------------------------------------------------
 
+ANCHOR_HELPERS = {'get_full_name_for_sql', 'get_full_name_for_dbml', 'prepare_text_for_sql', 'prepare_text_for_dbml', 'comment_to_sql', 'comment_to_dbml', 'string_to_dbml',
+                  'quote_string', 'note_option_to_dbml', 'name_to_dbml', 'escape_braces', 'validate_for_dbml', 'validate_for_sql', 'render_col', 'get_references_for_sql',
+                  'get_inline_references_for_sql', 'generate_comment_on', 'doublequote_string', 'default_to_str', 'col_names', 'indent', 'comment', 'remove_bom',
+                  'strip_empty_lines', 'remove_indentation', 'reformat_note_text', 'render_options', 'render_subjects', 'render_subject', 'render_items',
+                  'render_column_notes', 'create_components', 'create_body', 'generate_inline_sql', 'generate_not_inline_sql', 'generate_many_to_many_sql',
+                  'render_inline_reference', 'render_not_inline_reference', 'reorder_tables_for_sql', 'render', 'render_db', 'table_is_composite_pk'}
+
+
 class TemplateIndex:
     def __init__(self, idx: PyIndex, modules_prefix: Tuple[str, ...] = ('pydbml.renderer.', 'pydbml.tools')):
         self.idx = idx
         self.funcs: Dict[str, FuncInfo] = {fid: fi for fid, fi in idx.funcs.items()
                                            if fi.module.startswith(modules_prefix) and not isinstance(fi.node, ast.Lambda)}
+        # small fragment helpers the rules do not know by name (a function that returns one formatted piece) are read in place, so that a template split over
+        # such helpers shows the same sinks as the template written out; the helpers the rules name stay calls
+        from .inline import inline_fragments
+        self.funcs = {fid: inline_fragments(idx, fi, keep=ANCHOR_HELPERS) for fid, fi in self.funcs.items()}
         self.sinks: Dict[str, List[Sink]] = {fid: sinks_of(fi) for fid, fi in self.funcs.items()}
 
     def resolve_func(self, fi: FuncInfo, name: str) -> Optional[FuncInfo]:
